@@ -592,10 +592,12 @@ class FnSplicer:
         """R12: `E.iter().enumerate().filter_map(|(I, C)| BODY).collect()` (E a plain identifier naming a slice; the target a Vec) =>
         `{ let mut __out = Vec::new(); let mut __k: usize = 0; while __k < E.len() { let I = __k; let C = &E[__k]; __k += 1;
            match (BODY) { Some(__v) => { __out.push(__v); } None => {} } } __out }`
-        -- the definition of enumerate + filter_map + collect::<Vec<_>>: BODY is evaluated once per element, in order, and
+        With `.take(N)` before `.collect()`: `let __take: usize = N;` first and `if __out.len() >= __take { break; }` at the start of
+        each iteration (Take stops pulling from the inner iterator once N items have been produced).
+        -- the definition of enumerate + filter_map [+ take] + collect::<Vec<_>>: BODY is evaluated once per element, in order, and
         the values it returns in `Some` are appended in that order. BODY is left untouched."""
         rf, it = self.rf, self.it
-        bad = set(cfg) - {'invariant', 'decreases'}
+        bad = set(cfg) - {'invariant', 'decreases', 'ensures'}
         if bad:
             raise ExtractError(f'unknown filter_map_collect spec keys {bad}')
         ci = it.body[0] + 1; end = it.body[1]; found = 0
@@ -608,15 +610,27 @@ class FnSplicer:
                 inner = [rf.ct(k).text for k in range(tp + 1, tc)]
                 if len(inner) != 3 or inner[1] != ',' or rf.ct(tc + 1).text != '|':
                     raise ExtractError(f'{self._where()}: R12 needs a closure `|(i, c)| ..`')
-                if [rf.ct(cp + k).text for k in range(1, 5)] != ['.', 'collect', '(', ')']:
-                    raise ExtractError(f'{self._where()}: R12 needs `.filter_map(..).collect()` (found `{rf.spaced(cp + 1, cp + 5)}`)')
+                # optional `.take(N)` between filter_map(..) and collect(): Take stops pulling once N items have been produced
+                take = None; q = cp
+                if [rf.ct(cp + k).text for k in range(1, 4)] == ['.', 'take', '(']:
+                    tcp = rf.match(cp + 3)
+                    take = rf.spaced(cp + 4, tcp).strip(); q = tcp
+                if [rf.ct(q + k).text for k in range(1, 5)] != ['.', 'collect', '(', ')']:
+                    raise ExtractError(f'{self._where()}: R12 needs `.filter_map(..)[.take(n)].collect()` (found `{rf.spaced(q + 1, q + 5)}`)')
                 I, C = inner[0], inner[2]
                 BODY = rf.spaced(tc + 2, cp).strip()
-                clauses = self._clauses({'invariant': [f'__k <= {E}@.len()'] + list(cfg.get('invariant', [])), 'decreases': f'{E}@.len() - __k'})
-                before = rf.spaced(ci, cp + 5)
-                after = (f'{{ let mut __out = Vec::new(); let mut __k: usize = 0; while __k < {E}.len()\n{clauses}{{ let {I} = __k; let {C} = &{E}[__k]; __k += 1; '
+                spec = {'invariant': [f'__k <= {E}@.len()'] + list(cfg.get('invariant', [])), 'decreases': f'{E}@.len() - __k'}
+                if take is not None:
+                    spec['invariant'].append('__out@.len() <= __take')
+                    spec['ensures'] = [f'__k == {E}@.len() || __out@.len() == __take'] + list(cfg.get('ensures', []))
+                clauses = self._clauses(spec)
+                before = rf.spaced(ci, q + 5)
+                tk0 = f'let __take: usize = {take}; ' if take is not None else ''
+                tk1 = 'if __out.len() >= __take { break; } ' if take is not None else ''
+                after = (f'{{ let mut __out = Vec::new(); let mut __k: usize = 0; {tk0}while __k < {E}.len()\n{clauses}{{ {tk1}let {I} = __k; let {C} = &{E}[__k]; __k += 1; '
                          f'match ({BODY}) {{ Some(__v) => {{ __out.push(__v); }} None => {{}} }} }} __out }}')
-                self.ed.replace(rf.ct(ci).start, rf.ct(cp + 4).end, after)
+                self.ed.replace(rf.ct(ci).start, rf.ct(q + 4).end, after)
+                cp = q
                 self.desugared.append({'rule': 'R12', 'before': ' '.join(before.split()), 'after': ' '.join(after.replace(clauses, '').split())})
                 found += 1
                 ci = cp + 5
